@@ -298,6 +298,14 @@ func (m *Machine) render(v Value) string {
 }
 
 func main() {
+	// /verif is wherever this binary lives (<verif>/bin/symgo), unless VERIF_DIR says otherwise
+	if d := os.Getenv("VERIF_DIR"); d != "" {
+		verifDir = d
+	} else if exe, err := os.Executable(); err == nil {
+		if d := filepath.Dir(filepath.Dir(exe)); fileExists(filepath.Join(d, "harness")) {
+			verifDir = d
+		}
+	}
 	if len(os.Args) < 2 {
 		fmt.Fprintln(os.Stderr, "usage: symgo run|selftest ...")
 		os.Exit(2)
@@ -323,7 +331,7 @@ func cmdRun(args []string) {
 	solver := fs.String("solver", "z3", "z3 | z3-new | cvc5")
 	timeout := fs.Int("timeout", 120000, "per query timeout (ms)")
 	shard := fs.String("shard", "0/1", "i/n: run jobs with index%n==i")
-	kfFile := fs.String("kf", filepath.Join(verifDir, "known_findings.json"), "known findings file")
+	kfFile := fs.String("kf", "", "known findings file (default <verif>/known_findings.json)")
 	trace := fs.Bool("trace", false, "trace calls")
 	smtLog := fs.String("smtlog", "", "write the SMT script of the (last) job here")
 	unwind := fs.Int("unwind", 0, "loop unwinding bound")
@@ -367,6 +375,9 @@ func cmdRun(args []string) {
 	fmt.Sscanf(*shard, "%d/%d", &si, &sn)
 	if sn <= 0 {
 		sn = 1
+	}
+	if *kfFile == "" {
+		*kfFile = filepath.Join(verifDir, "known_findings.json")
 	}
 	kfOpen := loadOpenKF(*kfFile)
 	prog, pkgs := loadProgram()
@@ -425,6 +436,11 @@ func loadOpenKF(path string) map[string]bool {
 		}
 	}
 	return res
+}
+
+func fileExists(p string) bool {
+	_, err := os.Stat(p)
+	return err == nil
 }
 
 func cmdSelftest() {
